@@ -460,6 +460,30 @@ func runC07(c *core.Ctx) {
 			}
 			c.Outcome("checked")
 			checkEnvelope(c, rq, res, nc.Name)
+			// the same request on a root that has just answered the same document laid out differently (every token at another
+			// line and column): whatever the root remembers between requests, this response speaks about this text
+			warm := strings.ReplaceAll(rq.Text, "\n", " ")
+			if warm == rq.Text {
+				warm = tokenPerLine(rq.Text)
+			}
+			root2, r2, err := world.BuildRoot(nc.Cfg, g)
+			if err != nil {
+				panic(core.EngineError{Msg: err.Error()})
+			}
+			r2.Faults = rq.Faults
+			c.Eval()
+			var res2 map[string]interface{}
+			if pi := core.Safe(func() {
+				_ = root2.ResolveString(warm, rq.Op, rq.Vars)
+				res2 = root2.ResolveString(rq.Text, rq.Op, rq.Vars)
+			}); pi != nil {
+				c.Outcome("panic")
+				c.Violation("panic", map[string]string{"site": pi.Site, "class": pi.Class, "request": rq.Kind + "+warm-root"}, map[string]interface{}{"warm_up": warm, "query": rq.Text, "op": rq.Op, "vars": rq.Vars, "panic": pi.Value})
+				continue
+			}
+			rqw := *rq
+			rqw.Kind = rq.Kind + "+warm-root"
+			checkEnvelope(c, &rqw, res2, nc.Name)
 		}
 		c.Sample(func() interface{} {
 			return map[string]interface{}{"kind": rq.Kind, "layout": int(rq.Layout), "query": rq.Text, "op": rq.Op, "vars": rq.Vars}
@@ -483,6 +507,8 @@ func runC07(c *core.Ctx) {
 	// numeric leaves at root, nested and list-element positions (the nasty graph holds floats beyond float32)
 	docs = append(docs, world.Q(world.F("f"), world.F("a", world.F("f"), world.F("i")), world.F("kids", world.F("f")), world.F("ints"),
 		world.F("b", world.F("f"), world.F("peer", world.F("f"))), world.F("c", world.F("f")), world.F("peers", world.F("f"))))
+	// a field the reflection structs serve with nothing (an error of the reflection resolver's own, located at the selection)
+	docs = append(docs, world.Q(world.F("ghost"), world.F("a", world.F("id"), world.F("ghost")), world.F("kids", world.F("ghost"))))
 	nBases := len(docs)
 	if c.Thorough() {
 		docsWithin(c, s, world.BaseDocs(), 1, 0, func(d *world.Doc, dist int) bool {
@@ -527,6 +553,31 @@ func runC07(c *core.Ctx) {
 					if o.Name == op && len(o.Vars) > 0 {
 						for _, bad := range []map[string]interface{}{{"b": "notbool"}, {"s": 5.5}, {"t": []interface{}{true}}, {"b": map[string]interface{}{"x": 1}}, {"s": true, "b": 1.0}} {
 							run(&c07Req{Kind: "bad-variables", Text: text, Doc: dd, Op: op, Vars: bad, Layout: layout, MustReject: true})
+						}
+						// every variable left out, given a value of its type, or given a value of the wrong kind - all assignments with
+						// at least one wrong value (a good value declared after a bad one must not let the request through)
+						if len(o.Vars) <= 4 && layout <= world.LLines {
+							n := 1
+							for range o.Vars {
+								n *= 3
+							}
+							for m := 0; m < n; m++ {
+								vm, anyBad := map[string]interface{}{}, false
+								for vi, x := 0, m; vi < len(o.Vars); vi, x = vi+1, x/3 {
+									vd := o.Vars[vi]
+									isBool := strings.HasPrefix(vd.Type, "Boolean")
+									switch x % 3 {
+									case 1:
+										vm[vd.Name] = map[bool]interface{}{true: true, false: "good"}[isBool]
+									case 2:
+										vm[vd.Name] = map[bool]interface{}{true: "notbool", false: []interface{}{5.5}}[isBool]
+										anyBad = true
+									}
+								}
+								if anyBad {
+									run(&c07Req{Kind: "bad-variables", Text: text, Doc: dd, Op: op, Vars: vm, Layout: layout, MustReject: true})
+								}
+							}
 						}
 					}
 				}
